@@ -572,6 +572,80 @@ def clock_jump_during_close(ctx):
     judge(ctx, w, store, None, [], getattr(store, 'closed_with', None), {'clock_jump_during_close': True, 'workload': w, 'fail_at': None}, None)
 
 
+def idle_start_then_clock_jump(ctx):
+    """The asynchronous cassette is started and stays idle; the wall clock moves on by three days (a long quiet week-end, or a clock step);
+    then recordings are made. Whatever the flusher thread does periodically must survive a long stretch in which nothing was flushed."""
+    import sys
+    import time as _time
+    from playback.tape_cassettes.asynchronous.async_record_only_tape_cassette import AsyncRecordOnlyTapeCassette
+    real_time = _time.time
+    offset = [0.0]
+
+    def wall_clock():
+        return real_time() + offset[0]
+    patched = [(_time, 'time')]
+    for name, mod in list(sys.modules.items()):
+        if name.startswith('playback') and mod is not None and getattr(mod, 'time', None) is real_time:
+            patched.append((mod, 'time'))
+    for mod, attr in patched:
+        setattr(mod, attr, wall_clock)
+    try:
+        store = make_spy_store(lambda: None)
+        w = {'producers': 1, 'recordings': 2, 'writes': 2}
+        cas = AsyncRecordOnlyTapeCassette(store, flush_interval=0.005, timeout_on_close=60)
+        cas.start()
+        _time.sleep(0.05)
+        offset[0] = 86400.0 * 3
+        _time.sleep(0.1)                      # several idle rounds of the flusher after the jump
+        recs = {}
+        for ops in workload_ops(w):
+            run_producer(cas, ops, recs)
+        cas.close()
+    finally:
+        for mod, attr in patched:
+            setattr(mod, attr, real_time)
+    ctx.case(('idle_start_then_clock_jump',), nontrivial=True)
+    ctx.count('runs_after_a_long_idle_start')
+    judge(ctx, w, store, None, [], getattr(store, 'closed_with', None), {'idle_start_then_clock_jump': True, 'workload': w, 'fail_at': None}, None)
+
+
+class _NoneTimeoutRun(object):
+    """timeout_on_close=None (wait as long as it takes) with a storage that needs more than ten seconds for the backlog at close(); runs in
+    the background for the duration of the check, judged at the end."""
+
+    def __init__(self, ctx):
+        import time as _time
+        from playback.tape_cassettes.asynchronous.async_record_only_tape_cassette import AsyncRecordOnlyTapeCassette
+        self.ctx = ctx
+        self.store = make_spy_store(lambda: _time.sleep(0.93))
+        self.w = {'producers': 1, 'recordings': 1, 'writes': 4}        # 6 storage operations, two pauses each: a bit over eleven seconds
+        self.cas = AsyncRecordOnlyTapeCassette(self.store, flush_interval=0.01, timeout_on_close=None)
+        self.error = None
+        self.thread = threading.Thread(target=self._run)
+        self.thread.start()
+
+    def _run(self):
+        try:
+            self.cas.start()
+            recs = {}
+            for ops in workload_ops(self.w):
+                run_producer(self.cas, ops, recs)
+            self.cas.close()
+        except BaseException as ex:  # noqa
+            self.error = ex
+
+    def finish(self):
+        self.thread.join(120)
+        ctx = self.ctx
+        wit = {'none_timeout_on_close': True, 'workload': self.w, 'fail_at': None}
+        ctx.case(('none_timeout_on_close',), nontrivial=True)
+        ctx.count('closes_without_a_timeout')
+        if self.thread.is_alive() or self.error is not None:
+            ctx.violation('close() with timeout_on_close=None did not return / raised: %r' % (self.error,), wit)
+            return
+        judge(ctx, self.w, self.store, None, [], getattr(self.store, 'closed_with', None), wit, None)
+
+
 def steady_pace(ctx, n_writes):
     """Steady load with a storage that just keeps up: while the flusher is inside the storage call for one write, the service requests
     exactly one more - for more than a thousand consecutive rounds. Real threads, paced by a handshake at the storage call."""
@@ -673,18 +747,25 @@ def run(ctx):
             judge(ctx, w, holder['store'], holder['append_order'], holder['blocked'], holder['close_with'][0], witness, None)
         S.explore_random(make, targets(narrow=True), ninst, ctx.rng, on_run_i, granularity='instruction', step_budget=300000)
     ctx.note('bounded_dfs_complete_for_all_workloads', all_complete)
+    none_timeout = _NoneTimeoutRun(ctx) if ctx.shard == 0 else None     # (real threads only from here on: runs in the background meanwhile)
     if ctx.shard == 0:
         stress(ctx, 100 if ctx.quick else 2000)
     mutation_twin(ctx, ctx.budget(60, 3000))
     if ctx.shard == 0:
         backlog(ctx, 2 if ctx.quick else 12)
         clock_jump_during_close(ctx)
+        idle_start_then_clock_jump(ctx)
         steady_pace(ctx, 1300 if ctx.quick else 2500)
+        none_timeout.finish()
     if not ctx.counters.get('operations_checked'):
         ctx.inconclusive('no operation was checked')
 
 
 def replay(ctx, wit):
+    if wit.get('idle_start_then_clock_jump'):
+        return idle_start_then_clock_jump(ctx)
+    if wit.get('none_timeout_on_close'):
+        return _NoneTimeoutRun(ctx).finish()
     if wit.get('clock_jump_during_close'):
         return clock_jump_during_close(ctx)
     if wit.get('mutation_twin') or wit.get('backlog'):
